@@ -731,7 +731,9 @@ func (in *Interp) thaw(tm Term, t types.Type, f *Frame) Val {
 			}
 			ft := App(s+"_"+fl.Name(), in.sortOf(fl.Type()), tm)
 			if ft.Sort == SInt && !strings.Contains(ft.S, "!q") && !strings.Contains(ft.S, "p0!") && !strings.Contains(ft.S, "p1!") {
-				// integers stored in containers came from Go values of the field's type
+				// integers stored in containers came from Go values of the field's type.  (Stated per
+				// ground term only: a universal axiom over the datatype selector would be inconsistent,
+				// since the free constructor can build records holding any Int.)
 				in.assumeGlobal(inRange(ft, fl.Type()))
 			}
 			sv.F[i] = in.thaw(ft, fl.Type(), f)
